@@ -185,12 +185,17 @@ impl ListType {
         match self {
             ret @ Self::Open(..) => Ok(Cow::Borrowed(ret)),
             Self::Mixed(types) => {
-                if types
-                    .iter()
-                    .as_ref()
-                    .windows(2)
-                    .all(|x| x[0].eq_complex(&x[1], comparison_flags))
-                {
+                // the element type of the open list is the type of the FIRST element, so that type has to
+                // accept every other element. (Comparing neighbours only is not enough, compatibility is
+                // not transitive: `int?` takes `nil` and `nil` takes `str?`.)
+                let first_accepts_all = types.first().map_or(true, |first| {
+                    types
+                        .iter()
+                        .skip(1)
+                        .all(|other| first.eq_complex(other, comparison_flags))
+                });
+
+                if first_accepts_all {
                     if let Some(ty) = types.first() {
                         Ok(Cow::Owned(ListType::Open(Box::new(ty.clone()))))
                     } else {
